@@ -107,14 +107,21 @@ Theorem C39_oracle_greedy_sound : forall c, greedy_ok c = true ->
     /\ h_labels h = collapse p.
 Proof. exact greedy_ok_sound. Qed.
 
-Theorem C39_oracle_beam_sound : forall c, beam_ok c = true ->
+Theorem C39_oracle_beam_sound : forall c, (1 <= c_L c)%nat -> beam_ok c = true ->
   exists hs, c_nbest c = Hyps hs
     /\ NoDup (map h_labels hs)
-    /\ Forall (fun h => sc_finite (h_sc h) = true
-                        /\ sc_le (h_sc h) (exact (c_L c) (c_m c) (h_labels h)) (Dpow c) = true
+    /\ (hs = [] -> c_n c = 0%nat \/ c_k c = 0%nat \/ exists r, In r (c_m c) /\ dead_row (c_L c) r = true)
+    /\ Forall (fun h => Forall (fun l => (1 <= l < c_L c)%nat) (h_labels h)
+                        /\ sc_finite (h_sc h) = true
+                        /\ sc_le (h_sc h) (exact (c_L c) (c_m c) (h_labels h)) (Dpow c) (Tn c) = true
                         /\ (unpruned true (c_k c) (c_L c) (c_m c) = true ->
-                            sc_ge (h_sc h) (exact (c_L c) (c_m c) (h_labels h)) (Dpow c) = true)) hs.
+                            sc_ge (h_sc h) (exact (c_L c) (c_m c) (h_labels h)) (Dpow c) (Tn c) = true)) hs.
 Proof. exact beam_ok_sound. Qed.
+
+(* (15) the linear-time dynamic program used as the reference on long inputs is the forward
+        recursion of (11) *)
+Theorem C39_alpha_dp_is_alpha : forall rm l, alpha_dp rm l = alpha_tot rm l.
+Proof. exact alpha_dp_spec. Qed.
 
 (* ------------------------------- non-vacuity ------------------------------- *)
 Example C39_nonvacuous :
